@@ -230,6 +230,10 @@ func ruleTokenPos(c *Ctx, r *Report, rule string) {
 					if call, isC := kv.Value.(*ast.CallExpr); isC && c.calleeName(call) == "lexer.current" {
 						valOK = true
 					}
+					// the same text taken from the window directly (a one-line method returning input[start:pos])
+					if c.sliceShape(kv.Value) == "<lexer>.input[<lexer>.start:<lexer>.pos]" {
+						valOK = true
+					}
 				case "err":
 					isErr = true
 				}
